@@ -59,7 +59,11 @@ if quic:
     rc, out = sh(STUB + " ".join(pkgs), timeout=1800, e=dict(env, GOTOOLCHAIN="local"))
     res["verified_here"]["existing_tests_cmd"] = STUB + " ".join(pkgs) + "  (quic-go replaced by the compile stub)"
 else:
-    rc, out = sh("go test -vet=off -count=1 " + " ".join(pkgs), timeout=1800)
+    cmd = "go test -vet=off -count=1 " + " ".join(pkgs)
+    if any("mqttproxy" in p for p in pkgs):
+        # these tests bind the fixed port 1883: give them a private network namespace
+        cmd = "unshare -n sh -c 'ip link set lo up; " + cmd + "'"
+    rc, out = sh(cmd, timeout=1800)
 res["verified_here"]["existing_tests_with_change"] = "pass" if rc == 0 else "FAIL: " + out[-800:]
 demo_files = [f for f in os.listdir(mdir) if f.endswith(".go")]
 copy_to = meta.get("demo_copy_to", "")
